@@ -110,7 +110,7 @@ func genRays3(t *rapid.T, ctr kit.V3, size float64, n int) []ray3 {
 }
 
 func genPrim3(t *rapid.T) prim3Case {
-	s := gen.Shape3Gen(t, gen.AllKinds3, gen.LogF(t, 0.1, 10, "size"), 30, "shape")
+	s := gen.Shape3Gen(t, gen.AllKinds3, gen.LogF(t, 0.1, 10, "size"), 30, "shape").Scaled(gen.UnitGen(t, "unit"))
 	c := prim3Case{Shape: s, Rays: genRays3(t, s.Centre(), s.Size(), 8)}
 	for i := 0; i < 6; i++ {
 		c.Balls = append(c.Balls, ray3{O: s.Centre().Add(gen.Vec3(t, 2*s.Size(), "bc")), D: kit.V3{gen.LogF(t, 0.01, 100, "rf"), 0, 0}})
@@ -283,7 +283,7 @@ type prim2Case struct {
 }
 
 func genPrim2(t *rapid.T) prim2Case {
-	s := gen.Shape2Gen(t, gen.AllKinds2, gen.LogF(t, 0.1, 10, "size"), 30, "shape")
+	s := gen.Shape2Gen(t, gen.AllKinds2, gen.LogF(t, 0.1, 10, "size"), 30, "shape").Scaled(gen.UnitGen(t, "unit"))
 	c := prim2Case{Shape: s}
 	for i := 0; i < 8; i++ {
 		o := s.Centre().Add(gen.Vec2(t, 2*s.Size(), "o"))
